@@ -76,22 +76,25 @@ def mulMonomial (f : Field) (p : Poly) (deg : Nat) (c : Nat) : Poly :=
   if c = 0 then pZero
   else newPoly (p.map (fun x => f.mul x c) ++ List.replicate deg 0)
 
-/-- pointwise xor of `q` into `acc` starting at index `i` (the inner loop of `Multiply`) -/
-def xorAt : Poly → Nat → Poly → Poly
-  | acc, 0, q => List.zipWith (· ^^^ ·) acc (q ++ List.replicate (acc.length - q.length) 0)
-  | [], _ + 1, _ => []
-  | a :: acc, i + 1, q => a :: xorAt acc i q
+/-- xor `q` into the front of `acc` (positions beyond `q` unchanged) -/
+def xorPrefix : Poly → Poly → Poly
+  | acc, [] => acc
+  | [], _ => []
+  | a :: acc, b :: q => (a ^^^ b) :: xorPrefix acc q
+
+/-- the double loop of `Multiply`, `product[i+j] ^= a[i]*b[j]`: when row `i` has been added, position `i` is final.
+    `doneRev` = final positions (reversed), `pending` = positions `i …` -/
+def polyMulGo (f : Field) (q : Poly) : Poly → Poly → Poly → Poly
+  | [], doneRev, pending => doneRev.reverse ++ pending
+  | a :: rest, doneRev, pending =>
+    match xorPrefix pending (q.map (fun b => f.mul a b)) with
+    | [] => doneRev.reverse
+    | h :: t => polyMulGo f q rest (h :: doneRev) t
 
 /-- `Multiply` -/
 def polyMul (f : Field) (p q : Poly) : Poly :=
   if isZero p ∨ isZero q then pZero
-  else
-    let init := List.replicate (p.length + q.length - 1) 0
-    let rec go (ps : Poly) (i : Nat) (acc : Poly) : Poly :=
-      match ps with
-      | [] => acc
-      | a :: rest => go rest (i + 1) (xorAt acc i (q.map (fun b => f.mul a b)))
-    newPoly (go p 0 init)
+  else newPoly (polyMulGo f q p [] (List.replicate (p.length + q.length - 1) 0))
 
 /-- `NewMonominalPoly` -/
 def monomial (deg c : Nat) : Poly :=
